@@ -6,7 +6,7 @@ Tie: Go interpreter outcome == Lean `runProgram` outcome (the same specification
 tied to in C01). Oracle: Go interpreter outcome == Go VM outcome (output, completion /
 fatal kind + message) on programs of the shared language.
 """
-from gen import progs
+from gen import progs, families
 from vlib import core, progstream
 from props.C01 import CORPUS
 
@@ -59,6 +59,12 @@ def run(ctx):
         if e.get("status") == "open":
             ctx.known(e["id"], e["what"])
     judge(ctx, CORPUS, "C04 corpus")
+    known_srcs = {e["witness"]["main"] for e in core.load_known("C04") if e.get("status") == "open" and e.get("witness", {}).get("kind") == "prog"}
+    for fam, fsrcs in families.all_families().items():
+        fsrcs = [x for x in fsrcs if x not in known_srcs]
+        for i in range(0, len(fsrcs), 1500):
+            judge(ctx, fsrcs[i:i + 1500], f"C04 family {fam}")
+        ctx.coverage[f"family_{fam}"] = len(fsrcs)
     n = 1200 if ctx.tier == "quick" else 20000
     srcs = [progs.generate(ctx.rng, max_depth=ctx.rng.choice([2, 3, 3, 4]))[0] for _ in range(n)]
     for i in range(0, len(srcs), 2000):
